@@ -25,6 +25,7 @@ type modItem struct {
 	X     string `json:"x"`
 	St    string `json:"st"`
 	M     string `json:"m"`
+	HK    string `json:"hk"` // how the table variable got its value: "tab", "mod" (a require), "none"
 	H     int    `json:"h"` // table identity the statement's table variable holds (0 = not statically known)
 }
 
@@ -83,6 +84,14 @@ func modRender(tc *modCase, oneLine bool) *scRender {
 				emit("local ", occ{Slot: "n", Name: it.N, Role: "decl", Kind: "local"}, " = ", tv(it.X))
 			case "mdef":
 				mo := occ{Slot: "mn", Name: it.M, Role: "mdef", Kind: it.St, B: it.H}
+				if it.HK == "mod" {
+					// as-built (known finding): a member defined through a variable that holds a require(..) is found
+					// by go-to-definition but not by the reference search
+					mo.Alt = map[string]int{"Dev_MemberDefinedThroughRequireUnreferenced": 1}
+				} else if it.X == "L" {
+					// as-built (known finding): the reference search does not follow `local L = X`
+					mo.Alt = map[string]int{"Dev_MemberThroughAliasUnreferenced": 1}
+				}
 				switch it.St {
 				case "dot":
 					emit("function ", tv(it.X), ".", mo, "(p) return p end")
@@ -95,6 +104,9 @@ func modRender(tc *modCase, oneLine bool) *scRender {
 				}
 			case "muse":
 				mo := occ{Slot: "mn", Name: it.M, Role: "muse", Kind: it.St, B: it.H}
+				if it.X == "L" {
+					mo.Alt = map[string]int{"Dev_MemberThroughAliasUnreferenced": 1}
+				}
 				switch it.St {
 				case "read":
 					emit("print(", tv(it.X), ".", mo, ")")
@@ -276,6 +288,9 @@ func modJudgeRanges(c *Ctx, j *Job, res *proto.Result) {
 
 // modulesRuns is the generation plan of the Modules.tla families: every workspace of two files up to the item bound, and
 // simulated larger workspaces over three files.
+// modOneGlobal: Modules.tla constant OneGlobal for the current family.
+var modOneGlobal = "FALSE"
+
 func modulesRuns(c *Ctx, p *pool.Pool, build func(id int, raw json.RawMessage) *Job, judge func(j *Job, r *proto.Result)) bool {
 	items := 3
 	if c.Thorough() {
@@ -285,7 +300,7 @@ func modulesRuns(c *Ctx, p *pool.Pool, build func(id int, raw json.RawMessage) *
 		fmt.Sscan(v, &items)
 	}
 	cfg := func(nf, mi, mpf, emin int, invs string) string {
-		return fmt.Sprintf("CONSTANTS\n  NFiles = %d\n  MaxItems = %d\n  MaxPerFile = %d\n  Members = {\"fa\",\"fb\"}\n  EmitMin = %d\nINIT Init\nNEXT Next\nINVARIANTS %s\nCHECK_DEADLOCK FALSE\n", nf, mi, mpf, emin, invs)
+		return fmt.Sprintf("CONSTANTS\n  NFiles = %d\n  MaxItems = %d\n  MaxPerFile = %d\n  Members = {\"fa\",\"fb\"}\n  EmitMin = %d\n  OneGlobal = "+modOneGlobal+"\nINIT Init\nNEXT Next\nINVARIANTS %s\nCHECK_DEADLOCK FALSE\n", nf, mi, mpf, emin, invs)
 	}
 	if !c.streamRun("modules_bfs", tlc.Run{Module: "Modules", Workers: 8, Timeout: 60 * time.Minute,
 		Cfg: cfg(2, items, 3, 2, "TypeOK RetLast TabsFresh Emit")}, p, 8, build, judge) {
